@@ -17,6 +17,7 @@ func init() {
 		Rules: []Rule{
 			{"EVENT-ONSUCCESS", ruleEventOnSuccess},
 			{"COMMIT-CALLBACKS", ruleCommitCallbacks},
+			{"EVENT-COLLECTION-ID", ruleEventCollectionID},
 			{"EVENT-PAYLOAD", ruleEventPayload},
 			{"CONFINEMENT", ruleBusConfinement},
 			{"BUS-BLOCKING", ruleBusBlocking},
